@@ -407,6 +407,6 @@ PARTS: list[Part] = [
     custom_part("ts_anchor", drive_ts_anchor, check_ts_anchor, {"quick": 2, "thorough": 8}),
     hyp_part("lines", strat_lines, check_lines, {"quick": 1500, "thorough": 20000},
              {"quick": 2, "thorough": 16}),
-    hyp_part("e2e", strat_e2e, check_e2e, {"quick": 400, "thorough": 10000},
-             {"quick": 2, "thorough": 16}),
+    hyp_part("e2e", strat_e2e, check_e2e, {"quick": 500, "thorough": 10000},
+             {"quick": 6, "thorough": 16}),
 ]
